@@ -228,6 +228,7 @@ pub fn generate(seed: u64, thorough: bool, emit: &mut dyn FnMut(String)) {
     range_edge_families(seed, thorough, emit);
     round4_families(seed, thorough, emit);
     round5_families(seed, thorough, emit);
+    round6_families(seed, thorough, emit);
 }
 
 /// the same polynomial in every representation the integrators accept: dense / sparse, variables other than x,
@@ -917,4 +918,184 @@ fn expand_small_times(cs: &[f64], r: f64) -> Vec<f64> {
         next[k] -= *a * r;
     }
     next
+}
+
+// ---------------------------------------------------------------- round-6 families (DESIGN.md section 17)
+/// (O) BLOCK BOUNDARIES: the segment count at blk-1, blk, blk+1, blk+2, 2 blk+1 (and 3 more than those: the odd splice
+///     removes three segments) for blk = 16 .. 1024, several integrands each: all coefficients non-zero, interval NOT
+///     symmetric, degree 2/3 (exactness clause: a dropped, repeated or overwritten chunk of the node sum is an error of
+///     the size of the integral itself) and 4..8 (the fourth-derivative bound is tiny at these n); the degree /
+///     number of terms at 15..18, 31..34, 63..66 on intervals inside [-1, 1]; Romberg caps at the same values.
+/// (P) RESONANT / EXACT RELATIONS: (P1) a Romberg TOLERANCE EXACTLY EQUAL to the relative change the rule computes at
+///     iteration i (small-integer integrands on dyadic intervals: every sample and every trapezoid sum is exact, so the
+///     emulation below reproduces the figure bit for bit), the same one ulp above / below and 2^-40 off, with the cap at
+///     i, i+1, i+2, 9, 64 ("<=" against "<", converged in the very pass that hits the cap); (P2) a segment width of
+///     exactly 1, 2, 3, 1/2, 4 (multipliers h, h/3, 3h/8 that are exactly 1 or a power of two) at every n up to 40 and the
+///     block values; (P3) integrals that are EXACTLY zero without the integrand being odd about 0 (odd about the
+///     midpoint: the 3/8 panel cancels the 1/3 part exactly, the running sum returns to exactly 0 in the middle of the
+///     loop) and the same missed by one ulp / by 2^-40 of an end point.
+pub fn round6_families(seed: u64, thorough: bool, emit: &mut dyn FnMut(String)) {
+    let mut rng = Rng::new(Rng::new(seed ^ 0xC05_0006).next());
+    let mul = if thorough { 8 } else { 1 };
+    let simpson = |p: &AnyPoly, a: f64, b: f64, n: usize| format!("simpson {} {} {} {n}", req_any(p), rbits(a), rbits(b));
+    let romberg = |p: &AnyPoly, a: f64, b: f64, cap: u64, tol: f64| {
+        format!("romberg {} {} {} {cap} {}", req_any(p), rbits(a), rbits(b), rbits(tol))
+    };
+    // all coefficients non-zero, not symmetric
+    let full = |rng: &mut Rng, deg: usize| -> Vec<f64> {
+        (0..=deg).map(|_| { let v = rng.range(1, 24) as f64 / 8.0; if rng.chance(1, 2) { -v } else { v } }).collect()
+    };
+    // ---- (O) segment counts
+    let mut ns: Vec<usize> = Vec::new();
+    for blk in [16usize, 32, 64, 128, 256, 512, 1024] {
+        for n in [blk - 1, blk, blk + 1, blk + 2, 2 * blk + 1, blk + 3, blk + 4, blk + 5, 2 * blk + 4] {
+            ns.push(n);
+        }
+    }
+    for &n in &ns {
+        for r in 0..4 * mul {
+            let deg = match r % 4 { 0 => 3, 1 => 2, 2 => 4 + rng.below(2) as usize, _ => 6 + rng.below(3) as usize };
+            let cs = full(&mut rng, deg);
+            let a = rng.range(-12, 12) as f64 / 4.0;
+            let w = rng.range(1, 24) as f64 / 4.0;
+            let (a, b) = match rng.below(5) { 0 => (a + w, a), 1 => (a / 10.0, a / 10.0 + w / 10.0), _ => (a, a + w) };
+            let which = rng.below(5);
+            emit(simpson(&repr_any(&mut rng, &cs, which), a, b, n));
+        }
+    }
+    // ---- (O) degree / number of terms (outside the statement's degrees: never-a-panic and the correspondence)
+    for deg in [15usize, 16, 17, 18, 31, 32, 33, 34, 63, 64, 65, 66] {
+        for &n in &[1usize, 2, 3, 5, 8, 17, 64] {
+            let cs = full(&mut rng, deg);
+            let (a, b) = *rng.pick(&[(-0.75, 1.0), (0.0, 1.0), (-1.0, 0.5), (0.25, 0.875), (1.0, -0.5)]);
+            let which = rng.below(5);
+            emit(simpson(&repr_any(&mut rng, &cs, which), a, b, n));
+        }
+        let cs = full(&mut rng, deg);
+        emit(romberg(&repr_any(&mut rng, &cs, deg as u64), -0.5, 1.0, 2 + rng.below(8), *rng.pick(&[1.0, 1e-3, 1e-9])));
+    }
+    // ---- (O) Romberg caps at the block values
+    for cap in [15u64, 16, 17, 18, 31, 32, 33, 34, 63, 64, 65, 66, 127, 128, 129, 130, 255, 256, 257, 258, 513, 1023, 1024, 1025, 1026, 2049] {
+        for tol in [-1.0, 0.0, 1e-9, 1e-3, 1.0] {
+            let deg = 1 + rng.below(7) as usize;
+            let cs = full(&mut rng, deg);
+            let a = rng.range(-8, 8) as f64 / 4.0;
+            let which = rng.below(5);
+            emit(romberg(&repr_any(&mut rng, &cs, which), a, a + rng.range(1, 12) as f64 / 4.0, cap, tol));
+        }
+    }
+    // ---- (P1) tolerance exactly equal to the computed relative change
+    let eval = |cs: &[f64], x: f64| -> f64 { cs.iter().enumerate().map(|(k, c)| c * x.powi(k as i32)).sum() };
+    let trap = |cs: &[f64], a: f64, b: f64, n: usize| -> f64 {
+        let h = (b - a) / n as f64;
+        let mut xi = a;
+        let mut sum = eval(cs, xi);
+        for _ in 1..n {
+            xi += h;
+            sum += 2.0 * eval(cs, xi);
+        }
+        sum += eval(cs, b);
+        h * sum / 2.0
+    };
+    for r in 0..40 * mul {
+        let deg = 1 + (r % 6) as usize;
+        // small integers; intervals of width 1, 2, 4 at integer / half-integer ends: every sample of the first five passes is exact
+        let mut cs: Vec<f64> = (0..=deg).map(|_| rng.range(-6, 6) as f64).collect();
+        if cs[deg] == 0.0 {
+            cs[deg] = 1.0;
+        }
+        let a = rng.range(-4, 4) as f64 / 2.0;
+        let w = *rng.pick(&[1.0, 2.0, 1.0, 4.0, 0.5]);
+        let (a, b) = if rng.chance(1, 5) { (a + w, a) } else { (a, a + w) };
+        let mut t = vec![vec![0.0f64; 10]; 10];
+        t[1][1] = trap(&cs, a, b, 1);
+        let mut errs: Vec<f64> = Vec::new();
+        for iter in 1..=5usize {
+            t[iter + 1][1] = trap(&cs, a, b, 1 << iter);
+            for k in 2..=iter + 1 {
+                let j = 2 + iter - k;
+                let p = 4usize.pow(k as u32 - 1) as f64;
+                t[j][k] = (p * t[j + 1][k - 1] - t[j][k - 1]) / (p - 1.0);
+            }
+            errs.push(((t[1][iter + 1] - t[2][iter]).abs() / t[1][iter + 1]).abs() * 100.0);
+        }
+        for (i0, e) in errs.iter().enumerate() {
+            let i = i0 as u64 + 1;
+            if !(e.is_finite() && *e > 0.0) {
+                // exactly zero (or 0/0): the tolerances 0, -0 and the smallest number
+                for tol in [0.0, -0.0, 5e-324] {
+                    let which = rng.below(5);
+                    emit(romberg(&repr_any(&mut rng, &cs, which), a, b, i + 1, tol));
+                }
+                continue;
+            }
+            let tols = [*e, f64::from_bits(e.to_bits() + 1), f64::from_bits(e.to_bits() - 1), e * (1.0 + 2f64.powi(-40)), e * (1.0 - 2f64.powi(-40))];
+            for (ti, tol) in tols.iter().enumerate() {
+                for cap in [i, i + 1, i + 2, 9, 64] {
+                    if ti >= 3 && cap != i + 1 {
+                        continue;
+                    }
+                    let which = if ti == 0 { rng.below(5) } else { rng.below(2) };
+                    emit(romberg(&repr_any(&mut rng, &cs, which), a, b, cap, *tol));
+                }
+            }
+        }
+    }
+    // ---- (P2) segment widths that are exactly 1, 2, 3, 1/2, 4, 8
+    let mut pn: Vec<usize> = (1..=40).collect();
+    pn.extend_from_slice(&[63, 64, 65, 66, 127, 128, 129, 130, 255, 256, 257, 258]);
+    for &n in &pn {
+        for &h in &[1.0, 3.0, 2.0, 0.5, 4.0, 8.0] {
+            if n > 40 && h > 3.0 {
+                continue;
+            }
+            let deg = if (n + h as usize) % 2 == 0 { 1 + rng.below(3) as usize } else { 4 + rng.below(3) as usize };
+            // (higher degrees on long intervals: small leading coefficients keep the magnitudes ordinary)
+            let mut cs = full(&mut rng, deg);
+            let span = h * n as f64;
+            for (k, c) in cs.iter_mut().enumerate() {
+                *c *= 2f64.powi(-((k as f64 * span.log2().max(0.0)).ceil() as i32));
+            }
+            let a = if rng.chance(1, 2) { -(n as f64 / 2.0).floor() * h } else { rng.range(-3, 3) as f64 };
+            let (a, b) = if rng.chance(1, 6) { (a + span, a) } else { (a, a + span) };
+            let which = rng.below(5);
+            emit(simpson(&repr_any(&mut rng, &cs, which), a, b, n));
+        }
+    }
+    // ---- (P3) integrals that are exactly zero without symmetry about 0
+    for r in 0..80 * mul {
+        let n = *rng.pick(&[1usize, 2, 3, 4, 5, 6, 7, 8, 9, 10, 15, 16, 17, 33, 64, 65]);
+        let a = rng.range(-8, 8) as f64 / 2.0;
+        let w = *rng.pick(&[1.0, 2.0, 0.5, 3.0, 4.0]) * if r % 2 == 0 { n as f64 } else { 1.0 };
+        let b = a + w;
+        let m = a / 2.0 + b / 2.0;
+        // q(x - m) with q odd: (x - m), (x - m)^3, 2 (x - m)^3 + 3 (x - m), (x - m)^5
+        let mut cs = match r % 4 {
+            0 => vec![-m, 1.0],
+            1 => expand_small(1.0, &[m, m, m]),
+            2 => {
+                let mut c3 = expand_small(2.0, &[m, m, m]);
+                c3[0] += -m * 3.0;
+                c3[1] += 3.0;
+                c3
+            }
+            _ => expand_small(1.0, &[m, m, m, m, m]),
+        };
+        let sc = *rng.pick(&[1.0, -1.0, 0.5, 4.0]);
+        cs.iter_mut().for_each(|c| *c *= sc);
+        if cs.iter().any(|c| !c.is_finite()) {
+            continue;
+        }
+        let (a, b) = if rng.chance(1, 6) { (b, a) } else { (a, b) };
+        for mode in 0..3u64 {
+            // exact, and one end point moved by one ulp / by 2^-40 (the integral is then tiny, not zero)
+            let bb = match mode { 0 => b, 1 => if b == 0.0 { 5e-324 } else { f64::from_bits(b.to_bits() + 1) }, _ => b * (1.0 + 2f64.powi(-40)) };
+            let which = rng.below(5);
+            emit(simpson(&repr_any(&mut rng, &cs, which), a, bb, n));
+            if mode == 0 || r % 3 == 0 {
+                let which = rng.below(5);
+                emit(romberg(&repr_any(&mut rng, &cs, which), a, bb, 2 + rng.below(8), *rng.pick(&[1.0, 1e-6, 0.0, 100.0, f64::INFINITY])));
+            }
+        }
+    }
 }
